@@ -207,7 +207,7 @@ TReceive ==
          r == Receive(st, w, a)
          acct == AcctOf(st, w, e.dest)
          hv2 == IF Ok(e) THEN HvAfterReceive(st, S2, hv, w, e.sl) ELSE hv IN
-     /\ Check(ReplayNoEffect(st, S2, hv, w, "receive", e.sl, e.res), "C03", "ReplayNoEffect", e, "receive")
+     /\ Check(ReplayNoEffectA(st, S2, hv, w, "receive", e.sl, e.res, acct), "C03", "ReplayNoEffect", e, "receive")
      /\ Check(ForeignOnlyAdds(st, S2, w, ""), "C07", "ForeignOnlyAdds", e, "receive")
      \* a second delivery of a slate to an account that holds a (not cancelled) receive entry for it
      \* is refused without effect - however long ago the first one was, confirmed or not
